@@ -73,7 +73,9 @@ def oracle_C08(rs, n, ctx):
             continue
         # point evaluation and rays: list vs singles
         tt = singles[0]
-        pts, axes = rand_points(rs, tt, max(2, L))
+        # point lists also come in lengths around typical chunk/block sizes
+        npts = int(rs.choice([max(2, L), 7, 64, 65, 100, 130, 257]))
+        pts, axes = rand_points(rs, tt, npts)
         if rs.rand() < 0.3:
             pts[0] = [ax[-1] + 1.0 for ax in axes]
         vl = tt(pts)
@@ -84,7 +86,7 @@ def oracle_C08(rs, n, ctx):
         gs = np.array([E(p) for p in pts])
         if not np.array_equal(gl, gs, equal_nan=True):
             R.violate("C08:call", "list model evaluation differs from single evaluations", rep)
-        inside = [p for p in pts if all(ax[0] <= p[a] <= ax[-1] for a, ax in enumerate(axes))]
+        inside = [p for p in pts if all(ax[0] <= p[a] <= ax[-1] for a, ax in enumerate(axes))][:max(2, min(L + 1, 6))]
         if len(inside) >= 2:
             inside = np.array(inside)
             for honor in (False, True):
